@@ -111,9 +111,24 @@ func record(o *c.Out, suite string, k *Case) {
 	for _, h := range monitor(k) {
 		h.Suite, h.Index = suite, idx
 		o.Count("hit:" + h.Signature)
-		o.Hit(h)
+		hitsSeen[h.Signature]++
+		if h.Signature != sigLost && h.Signature != sigBarging {
+			unknownHits++
+		}
+		if hitsSeen[h.Signature] <= 40 { // the smallest of these becomes the replay; totals are in the distribution
+			o.Hit(h)
+		}
 	}
 }
+
+var (
+	hitsSeen    = map[string]int{}
+	unknownHits int
+)
+
+// enough: so many violations outside the known findings that generating more
+// histories adds nothing (keeps a badly broken tree from taking minutes)
+func enough() bool { return unknownHits >= 400 }
 
 // ---------------------------------------------------------------- generators
 
@@ -124,9 +139,20 @@ type gen struct {
 	next int
 	used map[[2]int64]bool // (priority, timestamp) pairs taken
 	ttls []int64
+	nops int
 }
 
+// opBudget bounds one history (a broken roll-over goroutine may re-arm its
+// timer in the past for ever; the monitor reports that, the generator stops).
+const opBudget = 160
+
+func (g *gen) over() bool { return g.nops >= opBudget }
+
 func (g *gen) do(op Op) bool {
+	if g.over() {
+		return false
+	}
+	g.nops++
 	if g.x.do(op) {
 		g.k.Ops = append(g.k.Ops, op)
 		return true
@@ -138,7 +164,7 @@ func (g *gen) now() int64 { return g.x.clk.nowNs() }
 
 // advance to T firing every due timer in deadline order (ties in random order)
 func (g *gen) adv(to int64) {
-	for i := 0; i < 64; i++ {
+	for i := 0; i < 64 && !g.over(); i++ {
 		p := g.x.pending()
 		if len(p) == 0 || p[0].deadline > to {
 			break
@@ -174,7 +200,7 @@ func (g *gen) pickTTL() int64 { return c.Pick(g.r, g.ttls) }
 // arrive: NewRequest + Enqueue at the current instant
 func (g *gen) arrive(hold bool, seq bool) int {
 	prio := g.pickPrio()
-	for g.used[[2]int64{int64(prio), g.now()}] { // (priority, timestamp) ties are not fixed by the code
+	for g.used[[2]int64{int64(prio), g.now()}] && !g.over() { // (priority, timestamp) ties are not fixed by the code
 		if seq {
 			g.adv(g.now() + 1)
 		} else {
@@ -245,7 +271,7 @@ func (g *gen) drain() {
 		g.do(Op{K: "runtick"})
 	}
 	end := g.now() + 4*g.k.W + 2
-	for i := 0; i < 40 && g.now() < end; i++ {
+	for i := 0; i < 40 && g.now() < end && !g.over(); i++ {
 		p := g.x.pending()
 		wait := false
 		for _, d := range p {
@@ -397,6 +423,9 @@ func enumerate(o *c.Out, maxWaiters int) {
 						}
 					}
 					permute(evs, func(p []string) {
+						if enough() {
+							return
+						}
 						var ops []Op
 						id := 1
 						for q := int64(0); q < quota; q++ { // fill the quota of window 0
@@ -480,11 +509,14 @@ func main() {
 		}
 	}
 	enumerate(o, o.Scale(2, 3, 3))
-	for i, n := 0, o.Scale(1500, 20000, 12000); i < n; i++ {
+	for i, n := 0, o.Scale(1500, 20000, 12000); i < n && !enough(); i++ {
 		record(o, "seq", genSeq(o, i%4 == 3))
 	}
-	for i, n := 0, o.Scale(1500, 20000, 12000); i < n; i++ {
+	for i, n := 0, o.Scale(1500, 20000, 12000); i < n && !enough(); i++ {
 		record(o, "forced", genForced(o, i%5 == 4))
+	}
+	if enough() {
+		o.Note("generation stopped early: more than 400 monitor hits outside the known findings")
 	}
 	o.Finish()
 }
